@@ -183,29 +183,36 @@ def r2(ctx):
 def r3(ctx):
     # base Fragment.__eq__
     f = ctx.fn(FRAGMENT, 'Fragment.__eq__')
-    tests = [src(s.test) for s in f.body if isinstance(s, ast.If) and s.body and isinstance(s.body[0], ast.Return) and src(s.body[0].value) == 'False']
-    need = {'sample': lambda t: 'self.sample != other.sample' in t, 'strand': lambda t: 'self.strand != other.strand' in t,
-            'contig': lambda t: 'self.span[0] != other.span[0]' in t or 'self.span[0] != other.span[0]'.replace('span', 'get_span()') in t,
-            'distance': lambda t: 'assignment_radius' in t}
-    for k, fn in need.items():
-        ok = any(fn(t) for t in tests)
-        ctx.emit('C06-R3', ok, FRAGMENT, f, f'Fragment.__eq__ rejects on {k}' if ok else f'Fragment.__eq__ does NOT compare {k}: fragments differing in {k} can be merged into one molecule',
-                 key=f'Fragment.__eq__:{k}', nontrivial=False, what=f'Fragment.__eq__ does not compare {k}')
-    last = f.body[-1]
-    ok = isinstance(last, ast.Return) and src(last.value) == 'self.umi_eq(other)'
-    ctx.emit('C06-R3', ok, FRAGMENT, last, 'Fragment.__eq__ finally compares the UMIs', key='Fragment.__eq__:umi', nontrivial=False)
-    rad = [s for s in f.body if isinstance(s, ast.If) and 'assignment_radius' in src(s.test)]
-    if rad:
-        t = rad[0].test
-        ren = {'self.span[1]': 's1', 'other.span[1]': 's2', 'self.span[2]': 'e1', 'other.span[2]': 'e2', 'self.assignment_radius': 'r'}
-        try:
-            ncase, bad = check_pred(t, lambda e: min(abs(e['s1'] - e['s2']), abs(e['e1'] - e['e2'])) > e['r'], symbols=['s1', 's2', 'e1', 'e2', 'r'],
-                                    constraint=lambda e: e['r'] >= 0 and abs(e['s1']) <= 2 and abs(e['s2']) <= 2 and abs(e['e1']) <= 2 and abs(e['e2']) <= 2 and e['r'] <= 3, atom_name=lambda x: ren.get(src(x)))
-            ctx.counters['abstract_cases'] += ncase
-            ctx.emit('C06-R3', not bad, FRAGMENT, rad[0], f'radius test `{src(t)[:70]}` over {ncase} cases == min(|start diff|, |end diff|) > radius' if not bad else f'radius test differs: {bad[0]}',
-                     key='Fragment.__eq__:radius-predicate')
-        except AnalysisError as ex:
-            ctx.emit('C06-R3', False, FRAGMENT, rad[0], f'radius test not interpretable: {ex}', key='Fragment.__eq__:radius-predicate', undecided=True)
+    # decision procedure of Fragment.__eq__: for every combination of (same cell, same strand, both spans valid, same contig) and every
+    # (start, start, end, end, radius) the outcome is False unless everything agrees and min(|start diff|, |end diff|) <= radius, in which
+    # case the UMI comparison decides - whatever the order / nesting of the tests
+    import itertools
+    from ..domains import assignments
+    from ..util import outcomes_by_case
+    ren = {'self.span[1]': 's1', 'other.span[1]': 's2', 'self.span[2]': 'e1', 'other.span[2]': 'e2', 'self.assignment_radius': 'r'}
+    cases = [dict(zip(('s1', 's2', 'e1', 'e2', 'r'), v)) for v in itertools.product(range(-2, 3), range(-2, 3), range(-2, 3), range(-2, 3), range(0, 4))]
+    missing = {'sample': 0, 'strand': 0, 'span validity': 0, 'contig': 0, 'distance': 0}
+    ncase = 0
+    for same_cell, same_strand, valid, same_contig in itertools.product((True, False), repeat=4):
+        facts = {'self.sample != other.sample': not same_cell, 'self.strand != other.strand': not same_strand,
+                 'self.has_valid_span()': valid, 'other.has_valid_span()': valid, 'self.span[0] != other.span[0]': not same_contig,
+                 'self.get_span()[0] != other.get_span()[0]': not same_contig}
+        sub = cases if (same_cell and same_strand and valid and same_contig) else cases[:1]
+        for case, outs in outcomes_by_case(f.body, sub, lambda x: None if isinstance(x, ast.Compare) else ren.get(src(x)), facts=facts):
+            ncase += 1
+            close = min(abs(case['s1'] - case['s2']), abs(case['e1'] - case['e2'])) <= case['r']
+            agree = same_cell and same_strand and valid and same_contig and close
+            want = {('return', 'self.umi_eq(other)')} if agree else {('return', False)}
+            if outs != want:
+                which = 'sample' if not same_cell else 'strand' if not same_strand else 'span validity' if not valid else 'contig' if not same_contig else 'distance'
+                missing[which] += 1
+    ctx.counters['abstract_cases'] += ncase
+    for k, bad_n in missing.items():
+        ok = bad_n == 0
+        ctx.emit('C06-R3', ok, FRAGMENT, f, f'Fragment.__eq__ rejects on {k}' + ('' if k != 'distance' else ' exactly when min(|start diff|, |end diff|) > radius') if ok else
+                 f'Fragment.__eq__ does NOT compare {k} correctly ({bad_n} cases differ): fragments differing in {k} can be merged into one molecule',
+                 key=f'Fragment.__eq__:{k}', nontrivial=(k == 'distance'), what=f'Fragment.__eq__ does not compare {k}')
+    ctx.emit('C06-R3', missing['distance'] == 0, FRAGMENT, f, f'radius test over {ncase} cases == min(|start diff|, |end diff|) > radius; matching fragments are decided by umi_eq', key='Fragment.__eq__:radius-predicate')
     # umi_eq
     u = ctx.fn(FRAGMENT, 'Fragment.umi_eq')
     cfg = CFG(u.body, exceptions=False)
